@@ -743,9 +743,28 @@ func (g *G) typedArray() {
 		}
 		w := at.ElementSize() / 8
 		b := rapid.SliceOfN(rapid.Byte(), n*w, n*w).Draw(g.t, "arr.bytes")
+		if top, ok := floatSpecialTops[at]; ok && n > 0 && g.chance("arr.fspecial", 3) {
+			// float elements that text spells as words (inf, -inf, nan, snan) or as signed zeros: random bytes
+			// reach one exact bit pattern about once in 2^16 .. 2^64 elements
+			for k := g.intn("arr.fspecial.n", 1, 3); k > 0; k-- {
+				i := g.intn("arr.fspecial.at", 0, n-1)
+				v := top[g.intn("arr.fspecial.v", 0, len(top)-1)]
+				for j := 0; j < w; j++ {
+					b[i*w+j] = 0
+				}
+				b[i*w+w-2], b[i*w+w-1] = byte(v), byte(v>>8)
+			}
+		}
 		g.emitArray(at, uint64(n), b)
 		return
 	}
+}
+
+// the two most significant bytes of +inf, -inf, quiet NaN, signaling NaN, +0 and -0 (all other bytes zero), per float width
+var floatSpecialTops = map[events.ArrayType][]uint16{
+	events.ArrayTypeFloat16: {0x7f80, 0xff80, 0x7fe0, 0x7fa0, 0x0000, 0x8000},
+	events.ArrayTypeFloat32: {0x7f80, 0xff80, 0x7fe0, 0x7fa0, 0x0000, 0x8000},
+	events.ArrayTypeFloat64: {0x7ff0, 0xfff0, 0x7ffc, 0x7ff4, 0x0000, 0x8000},
 }
 
 func (g *G) media() {
